@@ -1,44 +1,62 @@
 """C14 — composite package descriptors are normalised without losing dependencies.
 
-Decided structurally:
-  R1 libcnb: replacement  scheme test == "libcnb"; id parsed (error propagated); path looked up in the id->path
-                          map; missing => Err(MissingBuildpackPath); found => dependency built from that path
-  R2 one-to-one           between descriptor.dependencies.iter() and collect::<Result<Vec<_>,_>>() only `map`
-                          occurs in both passes (no filter/skip/take/rev/dedup/flat_map): count and order kept
+Decided from compiler facts, on meaning rather than spelling (rules/C14_helpers.py):
+  R1 libcnb: replacement  case analysis of buildpack_id_from_libcnb_dependency / replace_libcnb_uri (combinator chains,
+                          `match`, `let .. else`, `?` and private helpers give the same cases): the id is parsed from the
+                          URI path exactly when the scheme is present and == "libcnb"; a parse error is returned and nothing
+                          else happens without a successful parse; the id is looked up in the id->path map;
+                          missing => Err(MissingBuildpackPath(id)); found => dependency built from that path
+  R2 one-to-one           the `dependencies` of the success payload (normal form: private helpers inlined) are made from
+                          the input's element by element: an iterator pipeline in which only `map` occurs (no
+                          filter/skip/take/rev/dedup/flat_map), or a fresh Vec with exactly one push per iteration of a
+                          `for` loop over the input list that reaches success only through iterator exhaustion
   R3 verbatim arms        non-libcnb dependencies (pass 1) and dependencies with any scheme (pass 2) are returned
-                          as a clone of the input; only scheme-less URIs are rewritten
+                          as a clone of the input; only scheme-less URIs are rewritten (cases of the element mapping)
   R4 struct update        both result descriptors take `buildpack` and `platform` from the input descriptor
-  R5 absolutise           rewritten only under is_relative == true, joined onto the parent of the source
-                          package.toml; normalize_path arm table: CurDir -> nothing, ParentDir -> pop,
-                          Normal / RootDir -> push
+  R5 absolutise           rewritten only when relative (is_relative == !is_absolute), joined onto the parent of the source
+                          package.toml; normalize_path per-component effects (for loop or fold/for_each closure):
+                          CurDir -> nothing, ParentDir -> pop, Normal / RootDir -> push
   R6 written              the normalised descriptor is what is written to <destination>/package.toml (`?`)
 Not decided: that the resulting string denotes the same file (URI escaping by uriparse), "parses again".
 """
 from .lib.discard import result_fates, verdict
-from .lib.guards import conditions
+from .lib.effects import Effects, guards_of
 from .lib.paths import strip
-from .lib.tables import arm_defs
-from .lib.value import vstr, walk
+from .lib.value import canon, vstr, walk
+from .C14_helpers import Cases, NEG, POS, mentions, sequence_of, shape_sig, shape_vals
 
 PD = 'libcnb_package::package_descriptor::'
-ORDER_KEEPING = {'std::iter::Iterator::map', 'core::slice::<impl [T]>::iter', 'std::iter::Iterator::collect', 'std::iter::IntoIterator::into_iter'}
+UTIL = 'libcnb_package::util::'
 
 
-def adapters(v):
-    """names of the nested iterator calls from the outermost down to the source"""
-    out = []
+def is_param(v, fn, i):
     v = strip(v)
-    while v[0] == 'call' and v[2]:
-        out.append(v[1])
-        v = strip(v[2][0])
-    return out, v
+    return v[0] == 'param' and v[1] == fn.path and v[2] == i
 
 
-def closure_body(prog, sl, v):
-    v = strip(v)
-    if v[0] == 'closure' and v[1] in prog.fns:
-        return prog.fns[v[1]]
-    return None
+def atoms_values(cases):
+    """every value mentioned by the guards and results of a case list"""
+    for atoms, sh in cases:
+        for a in atoms:
+            yield from walk(a)
+        for leaf in shape_vals(sh):
+            yield from walk(leaf)
+
+
+def show(cases):
+    sg = shape_sig
+
+    def at(a):
+        if a[0] == 'is':
+            return '%s is %s' % (vstr(a[1])[:50], a[2] if isinstance(a[2], str) else '|'.join(sorted(a[2])))
+        if a[0] == 'bool' and a[1][0] == 'eq':
+            return '%s %s %s' % (vstr(a[1][1])[:40], '==' if a[2] else '!=', vstr(a[1][2])[:20])
+        if a[0] == 'bool':
+            return '%s%s' % ('' if a[2] else '!', vstr(a[1])[:50])
+        if a[0] == 'nall':
+            return '!(%s)' % ' & '.join(at(x) for x in a[1])
+        return str(a[0])
+    return '; '.join('[%s] => %s' % (', '.join(at(a) for a in atoms), sg(sh)) for atoms, sh in cases)[:400]
 
 
 def run(ctx, rep):
@@ -48,166 +66,172 @@ def run(ctx, rep):
         rep.rule(r, d)
     rep.not_decided = ['denotation of the normalised path string (URI escaping by uriparse)', 'that the written file parses again (toml)']
     w = lambda f: '%s:%d' % (f.file, f.line)
+    RU, IDF = PD + 'replace_libcnb_uri', PD + 'buildpack_id_from_libcnb_dependency'
     # ---- R2 / R4 for both passes --------------------------------------------------------------------------
-    for name, elem_fn in (('replace_libcnb_uris', PD + 'replace_libcnb_uri'), ('absolutize_dependency_paths', None)):
+    # Stated on the success payload of the pass in normal form (private helpers inlined, `x.map(f)` / `Ok(f(x?))` alike):
+    # a PackageDescriptor whose `dependencies` are made element by element from the input's (iterator pipeline or push loop).
+    seqs = {}
+    for name, elem_fn in (('replace_libcnb_uris', RU), ('absolutize_dependency_paths', None)):
         f = prog.fn(PD + name)
         rep.analysed(f)
-        v = strip(sl.local(f, 0))
-        ok = v[0] == 'call' and v[1].endswith('Result::<T, E>::map')
-        names, src = adapters(v[2][0]) if ok else ([], ('unknown',))
-        shape = ok and set(names) <= ORDER_KEEPING and names.count('std::iter::Iterator::map') == 1 and names[0] == 'std::iter::Iterator::collect' and \
-            src[0] == 'field' and src[2] == 'dependencies' and src[1][0] == 'param' and src[1][2] == 0
-        rep.check(shape, 'R2', name, w(f), 'dependencies.iter().map(..).collect(): one output per input, in order',
-                  '%s does not map the dependency list one-to-one: adapters %s over %s' % (name, [n.split('::')[-1] for n in names], vstr(src)[:60]))
-        cb = closure_body(prog, sl, v[2][1]) if ok else None
-        good = False
-        if cb is not None:
-            bv = strip(sl.local(cb, 0))
-            if bv[0] == 'agg' and (bv[1] or '').endswith('PackageDescriptor'):
-                fl = dict(bv[3])
-                src_of = lambda x: strip(x)[0] == 'field' and strip(x)[1][0] == 'param' and strip(x)[1][1] == f.path and strip(x)[1][2] == 0 and strip(x)[2]
-                good = src_of(fl.get('buildpack', ('unknown',))) == 'buildpack' and src_of(fl.get('platform', ('unknown',))) == 'platform' and \
-                    strip(fl.get('dependencies', ('unknown',)))[0] == 'param'
+        nf = sl.mk_unwrap(sl.inline_deep(sl.local(f, 0), keep=(RU, IDF, UTIL + 'absolutize_path')), 1)
+        bv = strip(nf)
+        fl = dict(bv[3]) if bv[0] == 'agg' and (bv[1] or '').endswith('PackageDescriptor') else {}
+        seq = sequence_of(prog, sl, f, fl['dependencies']) if 'dependencies' in fl else None
+        seqs[name] = seq
+        src = strip(seq.coll) if seq is not None else ('unknown',)
+        shape = seq is not None and seq.one_to_one and src[0] == 'field' and src[2] == 'dependencies' and is_param(src[1], f, 0)
+        rep.check(shape, 'R2', name, w(f), 'one output dependency per input dependency, in order (%s)' % (seq.kind if seq else '-'),
+                  '%s does not map the dependency list one-to-one: %s over %s' % (name, (seq.why or seq.kind) if seq is not None else 'result is ' + vstr(bv)[:80], vstr(src)[:60]))
+        src_of = lambda x: strip(x)[0] == 'field' and is_param(strip(x)[1], f, 0) and strip(x)[2]
+        good = bool(fl) and src_of(fl.get('buildpack', ('unknown',))) == 'buildpack' and src_of(fl.get('platform', ('unknown',))) == 'platform' and \
+            seq is not None and seq.kind is not None
         rep.check(good, 'R4', name, w(f), 'buildpack and platform copied from the input, dependencies = mapped list', '%s does not preserve buildpack/platform' % name)
         if elem_fn:
-            mc = [x for x in walk(v) if x[0] == 'call' and x[1] == 'std::iter::Iterator::map']
-            eb = closure_body(prog, sl, mc[0][2][1]) if mc else None
-            ev = strip(sl.local(eb, 0)) if eb else ('unknown',)
-            rep.check(ev[0] == 'call' and ev[1] == elem_fn and strip(ev[2][0])[0] == 'param', 'R2', name + '/element', w(f), 'each element -> %s(element)' % elem_fn.split('::')[-1],
-                      'element mapping is ' + vstr(ev)[:100])
+            ev = strip(seq.mapped) if seq is not None and seq.mapped is not None else ('unknown',)
+            rep.check(ev[0] == 'call' and ev[1] == elem_fn and canon(ev[2][0]) == canon(seq.elem), 'R2', name + '/element', w(f),
+                      'each element -> %s(element)' % elem_fn.split('::')[-1], 'element mapping is ' + vstr(ev)[:100])
     # ---- R1 / R3 : replace_libcnb_uri -----------------------------------------------------------------------
-    ru = prog.fn(PD + 'replace_libcnb_uri')
+    # Case analysis of the function (C14_helpers.Cases): which results are produced under which decisions, whether the code
+    # says `opt.map_or(Ok(dep.clone()), |id| ..)`, `let Some(id) = opt else { return Ok(dep.clone()) }` or `match`.
+    ru = prog.fn(RU)
     rep.analysed(ru)
-    v = strip(sl.local(ru, 0))
-    ok = v[0] == 'call' and v[1].endswith('::and_then') and strip(v[2][0])[0] == 'call' and strip(strip(v[2][0]))[1].endswith('map_err')
-    idc = strip(strip(v[2][0])[2][0]) if ok else ('unknown',)
-    ok = ok and idc[0] == 'call' and idc[1] == PD + 'buildpack_id_from_libcnb_dependency' and strip(idc[2][0])[0] == 'param'
-    rep.check(ok, 'R1', 'id-parse-propagated', w(ru), 'id parse error propagated (map_err + and_then)', 'replace_libcnb_uri = ' + vstr(v)[:140])
-    # The remaining obligations are established over the function together with its closures, so that
-    # `opt.map_or(Ok(dep.clone()), |id| ..)`, `let Some(id) = opt else { return Ok(dep.clone()) }` and `match` are all fine.
-    from .lib.discard import local_fates, verdict as fate_verdict
-    region = [ru] + prog.closures_of(ru)
-    is_dep = lambda x: strip(x)[0] == 'param' and strip(x)[1] == ru.path and strip(x)[2] == 0
-    is_map = lambda x: strip(x)[0] == 'param' and strip(x)[1] == ru.path and strip(x)[2] == 1
-    good_verbatim = False
-    good_lookup = False
-    for g in region:
-        # (a) verbatim clone when the dependency is not a libcnb: reference
-        for c in g.calls:
-            if c.name and c.name.endswith('Option::<T>::map_or') and len(c.args) == 3:
-                dflt = strip(sl.operand(g, c.args[1]))
-                if dflt[0] == 'agg' and dflt[2] == 'Ok' and is_dep(dict(dflt[3]).get('0', ('unknown',))):
-                    good_verbatim = True
-        for bi, b in enumerate(g.blocks):
-            for st in b['s']:
-                if st[0] == '=' and st[2]['r'] == 'agg' and st[2].get('variant') == 'Ok' and st[2].get('adt') == 'std::result::Result':
-                    val = sl._rvalue(g, st[2], set(), 0, None)
-                    if is_dep(dict(val[3]).get('0', ('unknown',))):
-                        none = [cd for cd in conditions(g, bi, sl) if cd.kind == 'variant' and cd.enum == 'std::option::Option' and cd.outcome == frozenset({'None'})]
-                        if none:
-                            good_verbatim = True
-        # (b) lookup in the id -> path map, missing => MissingBuildpackPath(id), propagated; (c) dependency from that path
-        for c in g.calls:
-            if c.name and c.name.endswith('BTreeMap::<K, V, A>::get') and is_map(sl.operand(g, c.args[0])):
-                key = strip(sl.operand(g, c.args[1]))
-                oks = [x for x in g.calls if x.name and x.name.endswith(('::ok_or', '::ok_or_else'))]
-                err_ok = False
-                for x in oks:
-                    ev = sl.operand(g, x.args[1])
-                    aggs = [y for y in walk(ev) if y[0] == 'agg' and y[2] == 'MissingBuildpackPath']
-                    if not aggs and strip(ev)[0] == 'closure' and strip(ev)[1] in prog.fns:
-                        aggs = [y for y in walk(sl.local(prog.fns[strip(ev)[1]], 0)) if y[0] == 'agg' and y[2] == 'MissingBuildpackPath']
-                    if aggs and strip(dict(aggs[0][3])['0']) == key:
-                        err_ok = True
-                fates = local_fates(prog, g, c.dest[0], {}, set(), 0) if c.dest and len(c.dest) == 1 else []
-                prop = fate_verdict(fates) == 'ok'
-                tf_ok = False
-                for g2 in region:
-                    for t in g2.calls:
-                        if t.full and 'PackageDescriptorDependency as std::convert::TryFrom<' in t.full:
-                            av = sl.operand(g2, t.args[0])
-                            from_lookup = any(y[0] == 'call' and y[1].endswith('BTreeMap::<K, V, A>::get') for y in walk(av)) or \
-                                (strip(av)[0] == 'param' and g2.kind == 'Closure' and g2.path != g.path)
-                            tf_ok = tf_ok or from_lookup
-                good_lookup = err_ok and prop and tf_ok
-    rep.check(good_verbatim, 'R3', 'pass1/non-libcnb', w(ru), 'non-libcnb dependency => Ok(clone of the input)', 'non-libcnb dependencies are not copied verbatim')
+    for g in prog.closures_of(ru):
+        rep.analysed(g)
+    cs = Cases(prog, sl, ru, stop=(IDF,)).fn_cases(ru)
+    idcs = {canon(x) for x in atoms_values(cs) if x[0] == 'call' and x[1] == IDF}
+    idc = next(iter(idcs)) if len(idcs) == 1 else None
+    id_ok = idc is not None and len(idc[2]) == 1 and is_param(idc[2][0], ru, 0)
+    failed = [c for c in cs if ('is', idc, NEG) in c[0]]
+    parsed = [c for c in cs if ('is', idc, NEG) not in c[0]]
+    ok = id_ok and bool(failed) and bool(parsed) and all(sh[0] == 'Err' and mentions(sh, ('unwrap_err', idc)) for _, sh in failed) and \
+        all(('is', idc, POS) in atoms for atoms, _ in parsed)
+    rep.check(ok, 'R1', 'id-parse-propagated', w(ru), 'id parse error propagated; everything else happens only after a successful parse', 'replace_libcnb_uri: ' + show(cs))
+    ido = ('unwrap', idc)
+    idv = ('unwrap', ido)
+    other = [c for c in cs if ('is', ido, NEG) in c[0]]
+    good_verbatim = id_ok and bool(other) and all(sh[0] == 'Ok' and sh[1][0] == 'val' and is_param(sh[1][1], ru, 0) for _, sh in other)
+    rep.check(good_verbatim, 'R3', 'pass1/non-libcnb', w(ru), 'non-libcnb dependency => Ok(clone of the input)', 'non-libcnb dependencies are not copied verbatim: ' + show(other or cs))
+    libcnb = [c for c in cs if ('is', ido, POS) in c[0]]
+    gets = {canon(x) for x in atoms_values(libcnb) if x[0] == 'call' and x[1].endswith('BTreeMap::<K, V, A>::get') and len(x[2]) == 2
+            and is_param(x[2][0], ru, 1) and canon(x[2][1]) == idv}
+    get = next(iter(gets)) if len(gets) == 1 else None
+    missing, found, stray = [], [], []
+    for atoms, sh in libcnb:
+        if get is not None and ('is', get, NEG) in atoms:
+            missing.append(sh[0] == 'Err' and any(y[0] == 'agg' and y[2] == 'MissingBuildpackPath' and canon(dict(y[3]).get('0')) == idv for leaf in shape_vals(sh) for y in walk(leaf)))
+        elif get is not None and ('is', get, POS) in atoms:
+            t = sl._ok_core(sh[1]) if sh[0] == 'val' else ('unknown',)
+            found.append(t[0] == 'call' and t[1].endswith('::try_from') and 'PackageDescriptorDependency as std::convert::TryFrom<' in t[1] and
+                         len(t[2]) == 1 and canon(t[2][0]) == ('unwrap', get))
+        else:
+            stray.append(sh)
+    good_lookup = id_ok and bool(missing) and bool(found) and all(missing) and all(found) and not stray
     rep.check(good_lookup, 'R1', 'lookup-or-error', w(ru), 'id looked up in the map; missing => Err(MissingBuildpackPath(id)) propagated; found => dependency from that path',
-              'libcnb: replacement is not map.get(id) -> MissingBuildpackPath(id) on absence -> try_from(path)')
-    idf = prog.fn(PD + 'buildpack_id_from_libcnb_dependency')
+              'libcnb: replacement is not map.get(id) -> MissingBuildpackPath(id) on absence -> try_from(path): ' + show(libcnb or cs))
+    # scheme test: the id is parsed from the URI path exactly when the scheme is present and equals "libcnb"
+    idf = prog.fn(IDF)
     rep.analysed(idf)
-    v = strip(sl.local(idf, 0))
-    names, src = adapters(v)
-    shape = [n.split('::')[-1] for n in names] == ['transpose', 'map', 'filter']
-    sch = False
-    if shape:
-        flt = next(x for x in walk(v) if x[0] == 'call' and x[1].endswith('::filter'))
-        fb = closure_body(prog, sl, flt[2][1])
-        fv = strip(sl.local(fb, 0)) if fb else ('unknown',)
-        if fv[0] == 'call' and fv[1].endswith('is_some_and') and strip(fv[2][0])[0] == 'call' and strip(fv[2][0])[1].endswith('::scheme'):
-            eb = closure_body(prog, sl, fv[2][1])
-            ev = strip(sl.local(eb, 0)) if eb else ('unknown',)
-            sch = ev[0] == 'call' and ev[1].endswith('::eq') and strip(ev[2][1]) == ('const', 'libcnb') and strip(ev[2][0])[0] == 'call' and strip(ev[2][0])[1].endswith('::as_str')
-        mp = next(x for x in walk(v) if x[0] == 'call' and x[1].endswith('Option::<T>::map'))
-        mb = closure_body(prog, sl, mp[2][1])
-        mv = strip(sl.local(mb, 0)) if mb else ('unknown',)
-        sch = sch and mv[0] == 'call' and mv[1].endswith('::parse') and strip(mv[2][0])[0] == 'call' and strip(mv[2][0])[1].endswith('::path')
-    rep.check(shape and sch, 'R1', 'scheme-test', w(idf), 'Some(uri).filter(scheme == "libcnb").map(path.parse()).transpose()', 'libcnb: detection is ' + vstr(v)[:140])
+    ics = Cases(prog, sl, idf).fn_cases(idf)
+    is_uri = lambda x: strip(x)[0] == 'field' and strip(x)[2] == 'uri' and is_param(strip(x)[1], idf, 0)
+    schemes = {canon(x) for x in atoms_values(ics) if x[0] == 'call' and x[1].endswith('::scheme') and len(x[2]) == 1 and is_uri(x[2][0])}
+    parses = {canon(x) for x in atoms_values(ics) if x[0] == 'call' and x[1].endswith('::parse') and len(x[2]) == 1 and strip(x[2][0])[0] == 'call' and
+              strip(x[2][0])[1].endswith('::path') and is_uri(strip(x[2][0])[2][0])}
+    sch = next(iter(schemes)) if len(schemes) == 1 else None
+    prs = next(iter(parses)) if len(parses) == 1 else None
+
+    def lt(a):
+        """one of the two conjuncts of `scheme is Some(s) and s.as_str() == "libcnb"`"""
+        if a == ('is', sch, POS):
+            return 1
+        if a[0] == 'bool' and a[2] is True and a[1][0] == 'eq':
+            x, y = a[1][1], a[1][2]
+            if x == ('const', 'libcnb'):
+                x, y = y, x
+            if y == ('const', 'libcnb') and x[0] == 'call' and x[1].endswith('::as_str') and len(x[2]) == 1 and x[2][0] == ('unwrap', sch):
+                return 2
+        return 0
+    is_libcnb = lambda atoms: {lt(a) for a in atoms} >= {1, 2}
+    not_libcnb = lambda atoms: any(a == ('is', sch, NEG) or (a[0] == 'bool' and lt((a[0], a[1], True)) == 2 and a[2] is False) or
+                                   (a[0] == 'nall' and a[1] and all(lt(x) for x in a[1])) for a in atoms)
+    kinds = {'some': [], 'none': [], 'err': [], 'other': []}
+    for atoms, sh in ics:
+        sig = shape_sig(sh)
+        if sig == 'Ok(Some(_))':
+            kinds['some'].append(is_libcnb(atoms) and canon(sh[1][1][1]) == ('unwrap', prs))
+        elif sig == 'Ok(None)':
+            kinds['none'].append(not_libcnb(atoms))
+        elif sh[0] == 'Err':
+            kinds['err'].append(is_libcnb(atoms) and mentions(sh, ('unwrap_err', prs)))
+        else:
+            kinds['other'].append(False)
+    ok = sch is not None and prs is not None and not kinds['other'] and all(kinds[k] and all(kinds[k]) for k in ('some', 'none', 'err'))
+    rep.check(ok, 'R1', 'scheme-test', w(idf), 'scheme present and == "libcnb" => Ok(Some(path.parse()?)); otherwise Ok(None)', 'libcnb: detection is ' + show(ics))
     # ---- R3 / R5 : absolutize -------------------------------------------------------------------------------
     ad = prog.fn(PD + 'absolutize_dependency_paths')
-    cl = [g for g in prog.closures_of(ad) if g.path.endswith('{closure#0}')]
-    ok = False
-    if cl:
-        g = cl[0]
-        rep.analysed(g)
-        rows = arm_defs(g, 0, sl)
-        table = {}
-        for bi, v, conds in rows:
-            v = strip(v)
-            oc = [cd for cd in conds if cd.kind == 'variant' and cd.enum == 'std::option::Option']
-            arm = next(iter(oc[-1].outcome)) if oc and len(oc[-1].outcome) == 1 else '?'
-            subj_ok = bool(oc) and any(x[0] == 'call' and x[1].endswith('::scheme') for x in walk(oc[-1].subject))
-            if v[0] == 'agg' and v[2] == 'Ok':
-                inner = strip(dict(v[3])['0'])
-                table[arm] = ('verbatim', inner[0] == 'param' and inner[2] == 1, subj_ok)
-            elif v[0] == 'call' and v[1].endswith('try_from'):
-                ap = strip(v[2][0])
-                good = ap[0] == 'call' and ap[1] == 'libcnb_package::util::absolutize_path'
+    seq = seqs['absolutize_dependency_paths']
+    table = {}
+    if seq is not None and seq.mapped is not None:
+        C2 = Cases(prog, sl, ad, stop=(UTIL + 'absolutize_path',))
+        for g in prog.closures_of(ad):
+            rep.analysed(g)
+        ecs = C2.call_cases(seq.closure, [seq.elem]) if seq.closure is not None else C2.value_cases(strip(seq.mapped), {})
+        for atoms, sh in ecs:
+            sc = [a for a in atoms if a[0] == 'is' and a[2] in (POS, NEG) and a[1][0] == 'call' and a[1][1].endswith('::scheme')]
+            arm = {POS: 'Some', NEG: 'None'}[sc[-1][2]] if sc and len({a[2] for a in sc}) == 1 else '?'
+            subj_ok = bool(sc) and all(len(a[1][2]) == 1 and strip(a[1][2][0])[0] == 'field' and strip(a[1][2][0])[2] == 'uri' and
+                                      canon(strip(a[1][2][0])[1]) == canon(seq.elem) for a in sc)
+            if sh[0] == 'Ok' and sh[1][0] == 'val':
+                row = ('verbatim', canon(sh[1][1]) == canon(seq.elem), subj_ok)
+            elif sh[0] == 'val' and strip(sh[1])[0] == 'call' and strip(sh[1])[1].endswith('try_from'):
+                ap = strip(strip(sh[1])[2][0])
+                good = ap[0] == 'call' and ap[1] == UTIL + 'absolutize_path'
                 if good:
                     pth, par = strip(ap[2][0]), strip(ap[2][1])
                     good = any(x[0] == 'call' and x[1].endswith('::path') for x in walk(pth)) and \
-                        any(x[0] == 'call' and x[1] == 'std::path::Path::parent' and strip(x[2][0])[0] == 'param' and strip(x[2][0])[2] == 1 for x in walk(par))
-                table[arm] = ('absolutize', good, subj_ok)
-        ok = table.get('None') == ('absolutize', True, True) and table.get('Some') == ('verbatim', True, True)
-        rep.extra['absolutize_arms'] = {k: list(v) for k, v in table.items()}
+                        any(x[0] == 'call' and x[1] == 'std::path::Path::parent' and is_param(x[2][0], ad, 1) for x in walk(par))
+                row = ('absolutize', good, subj_ok)
+            else:
+                row = (shape_sig(sh), False, subj_ok)
+            table[arm] = row if arm not in table or table[arm] == row else ('conflict', False, False)
+    ok = table == {'None': ('absolutize', True, True), 'Some': ('verbatim', True, True)}
+    rep.extra['absolutize_arms'] = {k: list(v) for k, v in table.items()}
     rep.check(ok, 'R3', 'pass2/scheme-arms', w(ad), 'scheme-less => absolutize(path, parent of package.toml); any scheme => verbatim clone',
               'absolutisation arms: %s' % rep.extra.get('absolutize_arms'))
-    ap = prog.fn('libcnb_package::util::absolutize_path')
+    ap = prog.fn(UTIL + 'absolutize_path')
     rep.analysed(ap)
-    rows = arm_defs(ap, 0, sl)
     arms = {}
-    for bi, v, conds in rows:
-        v = strip(v)
-        rel = [cd for cd in conds if cd.kind == 'bool' and cd.value[0] == 'call' and cd.value[1] == 'std::path::Path::is_relative' and strip(cd.value[2][0])[0] == 'param' and strip(cd.value[2][0])[2] == 0]
-        if not rel:
+    for atoms, sh in Cases(prog, sl, ap, stop=(UTIL + 'normalize_path',)).fn_cases(ap):
+        # `is_relative` and `!is_absolute` are the same test (Cases brings both to is_absolute)
+        rel = [a for a in atoms if a[0] == 'bool' and a[1][0] == 'call' and a[1][1] == 'std::path::Path::is_absolute' and a[1][2] == (canon(sl.local(ap, 1)),) and is_param(sl.local(ap, 1), ap, 0)]
+        if not rel or sh[0] != 'val':
             continue
-        if v[0] == 'call' and v[1] == 'libcnb_package::util::normalize_path':
+        v = strip(sh[1])
+        what = None
+        if v[0] == 'call' and v[1] == UTIL + 'normalize_path':
             j = strip(v[2][0])
-            arms[rel[-1].outcome] = 'normalize(join(parent, path))' if j[0] == 'call' and j[1] == 'std::path::Path::join' and strip(j[2][0])[2] == 1 and strip(j[2][1])[2] == 0 else 'normalize(?)'
-        elif v[0] == 'param' and v[2] == 0:
-            arms[rel[-1].outcome] = 'unchanged'
+            what = 'normalize(join(parent, path))' if j[0] == 'call' and j[1] == 'std::path::Path::join' and is_param(j[2][0], ap, 1) and is_param(j[2][1], ap, 0) else 'normalize(?)'
+        elif is_param(v, ap, 0):
+            what = 'unchanged'
+        if what:
+            key = not rel[-1][2]
+            arms[key] = what if arms.get(key, what) == what else 'conflict'
     rep.check(arms == {True: 'normalize(join(parent, path))', False: 'unchanged'}, 'R5', 'absolutize_path', w(ap), 'relative => normalize(parent.join(path)); absolute => unchanged',
               'absolutize_path arms: %s' % arms)
-    npf = prog.fn('libcnb_package::util::normalize_path')
+    # normalize_path: what happens to the result per path component, whether the components are visited by a `for` loop or
+    # by a closure handed to fold / for_each (effects expansion enters both and reports the guards at every level)
+    npf = prog.fn(UTIL + 'normalize_path')
     rep.analysed(npf)
+    E = Effects(prog, sl, vocab={'std::path::PathBuf::push': ('PATH_PUSH', 0), 'std::path::PathBuf::pop': ('PATH_POP', 0)})
     comp = {}
-    for c in npf.calls:
-        if c.indirect or not c.name or c.name.split('::')[-1] not in ('push', 'pop'):
+    for e in E.expand(npf, 'may'):
+        if e.kind not in ('PATH_PUSH', 'PATH_POP'):
             continue
-        if not c.name.startswith('std::path::PathBuf::'):
-            continue
-        cds = [cd for cd in conditions(npf, c.bb, sl) if cd.kind == 'variant' and cd.enum == 'std::path::Component']
-        if cds and len(cds[-1].outcome) == 1 and npf.in_loop(c.bb):
-            comp.setdefault(next(iter(cds[-1].outcome)), []).append(c.name.split('::')[-1])
+        rep.analysed(e.call.fn)
+        cds = [cd for cd, views, subj in guards_of(E, e) if cd.kind == 'variant' and cd.enum == 'std::path::Component']
+        per_component = e.forall is not None or e.call.fn.in_loop(e.call.bb)
+        if cds and len(cds[-1].outcome) == 1 and per_component:
+            comp.setdefault(next(iter(cds[-1].outcome)), []).append(e.call.name.split('::')[-1])
     want = {'RootDir': ['push'], 'ParentDir': ['pop'], 'Normal': ['push']}
     rep.check(comp == want, 'R5', 'normalize_path/arms', w(npf), 'RootDir/Normal => push, ParentDir => pop, CurDir => nothing', 'normalize_path component arms: %s' % comp)
     # ---- R6 ------------------------------------------------------------------------------------------------
